@@ -366,6 +366,14 @@ func (r *Run) runPath(sol *Solver, item workItem) (res *PathResult, pending []wo
 					res.Detail = x.msg + " @" + ex.trace
 					res.Inconcl = append(res.Inconcl, "unsupported: "+x.msg+" @"+ex.trace)
 				case fuelOut:
+					if x.what == "call depth" {
+						// unbounded recursion ends a Go program with a fatal stack overflow that no caller can
+						// recover; reported as a panic and confirmed (or not) by the native replay
+						res.Outcome = "panic"
+						res.Detail = "stack overflow (call depth > 3000) @" + ex.trace
+						ex.violation("uncaught-panic", res.Detail, ex.witness)
+						break
+					}
 					res.Outcome = "fuel"
 					res.Detail = x.what
 					res.Inconcl = append(res.Inconcl, "fuel: "+x.what)
